@@ -5,7 +5,7 @@
 From Coq Require Import List Bool Arith ZArith.
 From Verif Require Import Base.Effects Calcium.World Calcium.Ops.
 Import ListNotations.
-Open Scope Z_scope.
+Local Open Scope Z_scope.
 
 (* ---- API calls ---- *)
 Inductive op :=
@@ -172,6 +172,17 @@ Definition enc_trace (l : list (call * bool)) : list (list Z) :=
                      | None => []
                      end) l.
 
+(* length-prefixed records in one flat list *)
+Fixpoint unflatten (fuel : nat) (l : list Z) : list (list Z) :=
+  match fuel with
+  | O => []
+  | S f =>
+    match l with
+    | [] => []
+    | n :: t => firstn (Z.to_nat n) t :: unflatten f (skipn (Z.to_nat n) t)
+    end
+  end.
+
 (* ---- cases ---- *)
 Record step := mkStep {
   s_op : op;
@@ -179,7 +190,7 @@ Record step := mkStep {
   o_err : Z;                              (* observed error class of the API call *)
   o_msgs : list msg;                      (* observed messages, in arrival order; MClose iff the stream closed in time *)
   o_snap : snap;                          (* observed state after the call *)
-  o_calls : list (bool * fkey);           (* observed intercepted calls (faulted?, method, target), any order *)
+  o_calls : list Z;                       (* observed intercepted calls, any order, flattened: for each call its length n, then n numbers [faulted; method code; target encoding] *)
   o_waited : list wid;                    (* lambda: workloads whose engine wait call returned successfully *)
 }.
 Record case := mkCase { c_strict : bool; c_steps : list step }.
@@ -224,8 +235,7 @@ Definition step_agree (w : world) (st : step) : bool * world :=
     && same_multiset (map enc_msg ms) (map enc_msg (o_msgs st))
     && same_multiset (last_msgs ms) (last_msgs (o_msgs st))
     && same_multiset (enc_snap (snap_of (r_world r))) (enc_snap (o_snap st))
-    && same_multiset (enc_trace (r_trace r))
-                     (map (fun x => enc_bool (fst x) :: zn (meth_code (fst (snd x))) :: enc_target (snd (snd x))) (o_calls st)),
+    && same_multiset (enc_trace (r_trace r)) (unflatten (length (o_calls st)) (o_calls st)),
     r_world r).
 
 Fixpoint steps_agree (w : world) (l : list step) : bool :=
